@@ -12,7 +12,7 @@ what the channel delivers, positional arguments).
 The translator (`harness/translate/gen_cli.py`) re-extracts the `Prog` of `test`, `set`, `rm` and of
 the default case from the Python AST on every run (`Gen/Cli.lean`); `Props/C16.lean` proves them
 equal to `testProg`, `setProg`, `rmProg`, `defaultProg` below (`tie_*`), which are the hand-written
-transliteration (bug-compatible: `print(x)` always appends a newline; `-f FILE` is opened by
+transliteration (bug-compatible: `-f FILE` is opened by
 `argparse.FileType("r")`, i.e. with universal-newline translation, while POSIX `sys.stdin` is not
 translated).
 
@@ -201,19 +201,37 @@ def testProg : Prog :=
        (.print (.lit sOK) (.ret 0))                 --     print("OK"); return 0
        (.print (.lit sFail) (.ret 1)))              -- print("Fail"); return 1
 
-/-- `case "set"` -/
-def setProg : Prog :=
+/-- `case "set"` / `case "rm"` (since /repo 9670208): write the edit text, add `\n` only if missing
+
+```python
+source = parse(args.file.read())
+text = set_value(source=source, npath=args.npath, value=args.value)
+sys.stdout.write(text if text.endswith("\n") else text + "\n")
+return 0
+```
+-/
+def editProg (edit : Rhs) : Prog :=
   .bind .read <|                                    -- v0 = args.file.read()
   .bind (.parse (.var 0)) <|                        -- v1: source = parse(v0)
-  .bind (.setValue (.var 1) .npath .value) <|       -- v2 = set_value(source=source, npath=args.npath, value=args.value)
-  .print (.var 2) (.ret 0)                          -- print(v2); return 0
+  .bind edit <|                                     -- v2: text = set_value(…) / remove_value(…)
+  .ite (.endsWith (.var 2) ['\n'])                  -- text if text.endswith("\n")
+    (.write (.var 2) (.ret 0))                      --   sys.stdout.write(text); return 0
+    (.bind (.concat (.var 2) (.lit ['\n'])) <|      -- v3 = text + "\n"
+     .write (.var 3) (.ret 0))                      --   sys.stdout.write(v3); return 0
 
-/-- `case "rm"` -/
-def rmProg : Prog :=
+def setProg : Prog := editProg (.setValue (.var 1) .npath .value)
+def rmProg : Prog := editProg (.removeValue (.var 1) .npath)
+
+/-- The programs BEFORE /repo 9670208 (fixed defect C16-print-newline), kept so that a regression is
+    recognised: `print(set_value(…))` always appends a newline. -/
+def oldEditProg (edit : Rhs) : Prog :=
   .bind .read <|
   .bind (.parse (.var 0)) <|
-  .bind (.removeValue (.var 1) .npath) <|
+  .bind edit <|
   .print (.var 2) (.ret 0)
+
+def oldSetProg : Prog := oldEditProg (.setValue (.var 1) .npath .value)
+def oldRmProg : Prog := oldEditProg (.removeValue (.var 1) .npath)
 
 /-- `case _` (no sub-command) -/
 def defaultProg : Prog := .helpStderr (.ret 2)
@@ -340,23 +358,10 @@ def libEdit (lib : Lib σ) (cmd : Cmd) (npath value : Text) (t : Text) : Except 
 
 def hasCR (t : Text) : Bool := t.contains '\r'
 
-/-! ## The proposed repair of the line-terminator defect (NOT the current code)
+/-- the command line before /repo 9670208 (`test` is unchanged) -/
+def oldProgOf : Cmd → Prog
+  | .test => testProg | .set => oldSetProg | .rm => oldRmProg
 
-```python
-text = set_value(source=source, npath=args.npath, value=args.value)
-sys.stdout.write(text if text.endswith("\n") else text + "\n")
-return 0
-```
--/
-def repairedEdit (edit : Rhs) : Prog :=
-  .bind .read <|
-  .bind (.parse (.var 0)) <|
-  .bind edit <|
-  .ite (.endsWith (.var 2) ['\n'])
-    (.write (.var 2) (.ret 0))
-    (.bind (.concat (.var 2) (.lit ['\n'])) <| .write (.var 3) (.ret 0))
-
-def repairedSetProg : Prog := repairedEdit (.setValue (.var 1) .npath .value)
-def repairedRmProg : Prog := repairedEdit (.removeValue (.var 1) .npath)
+def oldCli (lib : Lib σ) (cmd : Cmd) (inv : Inv) : Res := runProg lib (oldProgOf cmd) inv
 
 end Nima.Cli
